@@ -272,6 +272,8 @@ package logqlmetric
 //@   inline
 //@ func (Sample).Greater
 //@   inline
+//@ func (Sample).compare
+//@   inline
 
 //@ func VectorAggregation
 //@   ensures[an-iterator-or-an-error] ret1 == nil ==> ret0 != nil
@@ -285,7 +287,7 @@ package logqlmetric
 //@   ensures[heap-iterator]      ret1 == nil && (old(expr.Op) == logql.VectorOpBottomk || old(expr.Op) == logql.VectorOpSort || old(expr.Op) == logql.VectorOpTopk || old(expr.Op) == logql.VectorOpSortDesc) ==> typeis[*vectorAggHeapIterator](ret0) && as[*vectorAggHeapIterator](ret0).iter == iter && same(as[*vectorAggHeapIterator](ret0).grouper, grouper) && same(as[*vectorAggHeapIterator](ret0).groupLabels, groupLabels)
 //@   ensures[smallest-first] ret1 == nil && (old(expr.Op) == logql.VectorOpBottomk || old(expr.Op) == logql.VectorOpSort) ==> as[*vectorAggHeapIterator](ret0).less(x, y) == x.Less(y) && as[*vectorAggHeapIterator](ret0).greater(x, y) == x.Greater(y)
 //@   ensures[largest-first]  ret1 == nil && (old(expr.Op) == logql.VectorOpTopk || old(expr.Op) == logql.VectorOpSortDesc) ==> as[*vectorAggHeapIterator](ret0).less(x, y) == x.Greater(y) && as[*vectorAggHeapIterator](ret0).greater(x, y) == x.Less(y)
-//@   ensures[heap-order-is-total-on-distinct-series] ret1 == nil && typeis[*vectorAggHeapIterator](ret0) ==> (!as[*vectorAggHeapIterator](ret0).less(x, y) && !as[*vectorAggHeapIterator](ret0).less(y, x) ==> same(x.Set, y.Set))
+//@   ensures[heap-order-is-total-on-distinct-series] ret1 == nil && typeis[*vectorAggHeapIterator](ret0) && x.Set != nil && y.Set != nil ==> (!as[*vectorAggHeapIterator](ret0).less(x, y) && !as[*vectorAggHeapIterator](ret0).less(y, x) ==> x.Set.Key() == y.Set.Key())
 //@   ensures[heap-comparators-are-inverses] ret1 == nil && typeis[*vectorAggHeapIterator](ret0) ==> as[*vectorAggHeapIterator](ret0).greater(x, y) == as[*vectorAggHeapIterator](ret0).less(y, x)
 //@   ensures[limit] ret1 == nil && typeis[*vectorAggHeapIterator](ret0) ==> as[*vectorAggHeapIterator](ret0).limit == ite(old(expr.Parameter) == nil, -1, old(*expr.Parameter))
 
